@@ -139,6 +139,7 @@ def run(ctx):
     if exe: correspond(ctx, exe, ctx.thorough)
     orc.sweep(ctx, thorough=ctx.thorough)
     orc.file_sweep(ctx, thorough=ctx.thorough)
+    orc.data_sweep(ctx, thorough=ctx.thorough)
 
     def deep(broken):
         if not ctx.thorough: orc.sweep(ctx, thorough=True)
@@ -148,6 +149,7 @@ def run(ctx):
 def replay(ctx, data):
     inp = data.get('input') or {}
     if 'file' in inp: return orc.file_replay(ctx, inp)
+    if 'data_case' in inp: return orc.data_replay(ctx, inp)
     if 'table' not in inp: return True
     tmpdir = tempfile.mkdtemp(prefix='c02r_')
     try:
